@@ -57,7 +57,10 @@ class Net:
             s.positions.update(allpos)
         self.links = {i: [j for j in range(n) if j != i and (topo == "mesh" or abs(i - j) == 1)] for i in range(n)}
         self.queue = []
+        # a lossy ether eats the first few LS request frames at their origin (the retransmit timer recovers them); frames
+        # that are being forwarded are never lost, so a lookup always succeeds within itsGnLocationServiceMaxRetrans
         self.lossy = rng.random() < 0.4
+        self.ls_drops_left = rng.choice([1, 2, 3]) if self.lossy else 0
 
     def now(self):
         return rs.VCLOCK.its_ms()
@@ -86,7 +89,9 @@ class Net:
             steps += 1
             if self.queue:
                 i, pkt = self.queue.pop(0)
-                if len(pkt) > 5 and pkt[5] == 0x60 and self.lossy and self.ctx.rng.random() < 0.5:
+                if len(pkt) > 10 and pkt[5] == 0x60 and pkt[3] == pkt[10] and self.ls_drops_left > 0 \
+                        and self.ctx.rng.random() < 0.7:
+                    self.ls_drops_left -= 1
                     self.ctx.count(1, "ls_request_frame_lost")
                     continue
                 for j in self.links[i]:
@@ -135,7 +140,7 @@ def mk_request(rng, kind, n_st, sender, net):
     btp_type = rng.choice([1, 2])
     p1 = rng.choice(PORTS)
     p2 = rng.choice([0, 1, 65535, 4660, 2001])
-    q = {"req_ms": rng.choice([-1, -1, 1000, 50]), "req_hl": rng.choice([0, 1, 2, 5, 10]), "scf": 0,
+    q = {"req_ms": rng.choice([-1, -1, 1000, 50]), "req_hl": rng.choice([0, 1, 2, 5, 10, 255]), "scf": 0,
          "off": int(rng.random() < 0.2), "tcid": rng.randrange(64)}
     ev = {"ev": "btp", "gn": kind if kind in ("shb", "guc") else "geo", "btp_type": btp_type, "p1": p1, "p2": p2,
           "payload": payload, "r": q, "kind": kind}
@@ -143,7 +148,7 @@ def mk_request(rng, kind, n_st, sender, net):
         ego = net.st[sender].ego
         shape = rng.choice([0, 1, 2])
         a, b = rng.choice([(30, 20), (200, 100), (1000, 500), (15, 15), (5, 3)])
-        angle = rng.choice([0, 45, 90, 200])
+        angle = rng.choice([0, 30, 45, 90, 135, 200, 270, 359])
         centre = (ego[4] + rng.randrange(-200, 201), ego[5] + rng.randrange(-200, 201))
         q.update(ht=4 if kind == "gbc" else 3, hst=shape, area=(centre[0], centre[1], a, b, angle))
         ev["area"] = (centre[0], centre[1], a, b, angle, shape)
